@@ -493,7 +493,7 @@ def run(rep, tier, seed):
              mutants='shape +-1, undeclared type/colour cell, Hidden cell, agent outside on each side, held item undeclared',
              rejected=[repr(b) for b in [Action.ACTUATE, Action.PICK_N_DROP] + NON_ACTIONS])
     dyn.report_fails(rep, fails, replay)
-    rep.sample({'kind': 'member', 's': ((U.FLOOR, U.WALL, U.key(U.C1)),) + (), 'note': 'with all single-fault mutants'})
+    rep.sample({'kind': 'member', 's': (((U.FLOOR, U.WALL, U.key(U.C1)),), 0, 0, 'F', NONE), 'note': 'with all single-fault mutants'})
     if tier == 'quick':
         names, init_limit, max_states, gcap = configs.SMALL + ['crossing.7x7', 'four_rooms.7x7', 'memory_four_rooms.7x7',
                                                                'teleport.7x7', 'keydoor.7x7', 'empty.8x8'], 150, 5000, 4
